@@ -233,7 +233,7 @@ from vlib import SAN_ENV
 WIDE_ENV = dict(SAN_ENV, ASAN_OPTIONS=SAN_ENV["ASAN_OPTIONS"] + ":hard_rss_limit_mb=3000")
 
 
-def run_robust(exe, lines, line_timeout=20, env=None):
+def run_robust(exe, lines, line_timeout=15, env=None):
     """feed command lines to a line-protocol driver; a line that kills the driver
     yields "CRASH", one that does not answer within line_timeout seconds "HANG";
     the driver is restarted on the next line.
@@ -286,7 +286,9 @@ def run_robust(exe, lines, line_timeout=20, env=None):
             pass
         rc = p.wait()
         ef.seek(0)
-        err = ef.read().decode("utf-8", "replace")[-4000:]
+        err = ef.read().decode("utf-8", "replace")
+        if len(err) > 6500:          # keep the head (error line, frame #0) and the tail of a long sanitizer report
+            err = err[:4000] + "\n[...]\n" + err[-2500:]
         ef.close()
         if got >= want:
             if rc != 0:
